@@ -100,6 +100,81 @@ def same_second(ctx, n):
     return done
 
 
+def members_and_restores(ctx, n):
+    """(1) An earlier backup of the group has lost its data archive (its manifest is still there): the next run must not
+    refer to bytes that are stored nowhere - every non-empty extern record needs a unique record of its hash in an earlier
+    backup of the group *whose archive holds that entry with its data*.  (2) The consequence the property names: every
+    backup of a group of three or more, with a file unchanged (and one moved) across them, restores from its group alone."""
+    import os, random, shutil
+    from vlib import hist
+    done = 0
+    for i in range(n):
+        rng = random.Random(ctx.seed * 1000 + 700 + i)
+        # (1)
+        w = hist.World(ctx, 8700 + i, rng, max_groups=2, max_per_group=4, nitems=1)
+        try:
+            for k in range(3):
+                w.write(os.path.join(w.items[0], 'f%d' % k), 800 + i * 10 + k, rng.choice([30, 5000, 20000]))
+            assert w.backup(advance=5).rc == 0
+            g1, b1 = store.group_name(w.now), store.backup_name(w.now)
+            os.unlink(os.path.join(w.root, g1, b1, 'data.tar.zst'))
+            if i % 2:
+                for k in range(3):
+                    w.fresh_mtime(os.path.join(w.items[0], 'f%d' % k))
+            r = w.backup(advance=60)
+            b2dir = os.path.join(w.root, g1, store.backup_name(w.now))
+            case = {'scenario': 'member-without-data', 'index': i, 'touched': bool(i % 2), 'rc': r.rc}
+            if os.path.isdir(b2dir):
+                stored = set()
+                for b in sorted(os.listdir(os.path.join(w.root, g1))):
+                    bd = os.path.join(w.root, g1, b)
+                    if not store.BACKUP_RE.match(b):
+                        continue
+                    try:
+                        recs = store.read_manifest(bd)
+                    except Exception:
+                        recs = []
+                    try:
+                        ents, _ = store.read_archive(bd, with_data=True)
+                        have = {'/' + e['path']: e for e in ents if e['type'] == 'file'}
+                    except Exception:
+                        have = {}
+                    for rec in recs:
+                        if rec['unique']:
+                            e = have.get(rec['path'])
+                            if e is not None and e['size'] >= rec['size']:
+                                stored.add(rec['hash'])
+                        elif rec['size'] > 0 and rec['hash'] not in stored and bd == b2dir:
+                            ctx.violation('property', 'extern record %s of the new backup refers to content that no earlier backup of the group stores '
+                                          '(the only backup recording it as unique has no data archive)' % rec['path'], {'case': case})
+            done += 1
+        finally:
+            w.cleanup()
+        # (2)
+        w = hist.World(ctx, 8800 + i, rng, max_groups=2, max_per_group=5, nitems=1)
+        try:
+            w.write(os.path.join(w.items[0], 'stays'), 900 + i, 3000)
+            w.write(os.path.join(w.items[0], 'moves'), 950 + i, 700)
+            names = []
+            for k in range(rng.randint(3, 4)):
+                if k == 1:
+                    os.rename(os.path.join(w.items[0], 'moves'), os.path.join(w.items[0], 'moved-to'))
+                w.write(os.path.join(w.items[0], 'new%d' % k), 1000 + i * 10 + k, 100)
+                assert w.backup(advance=30).rc == 0
+                names.append((store.group_name(w.now), store.backup_name(w.now)))
+            for k, (g, b) in enumerate(names):
+                rd = os.path.join(w.base, 'restored-%d' % k)
+                rr = store.run_vsb(ctx, ['-c', w.cfg, 'restore', os.path.join(w.root, g, b), rd])
+                if rr.rc != 0:
+                    ctx.violation('property', 'backup #%d of a group of %d cannot be restored from its group alone: %s' % (k + 1, len(names), rr.errors()[:2]),
+                                  {'case': {'scenario': 'restore-each-of-group', 'index': i, 'backup': k}})
+                shutil.rmtree(rd, ignore_errors=True)
+            done += 1
+        finally:
+            w.cleanup()
+    return done
+
+
 def check(ctx):
     aud = core.audit(ctx.prop)
     core.report_audit(ctx, aud)
@@ -112,6 +187,7 @@ def check(ctx):
     steps = dc.run_all(ctx, 50, 700)
     races = racing_writer(ctx, 4 if ctx.tier == 'quick' else 40)
     same = same_second(ctx, 6 if ctx.tier == 'quick' else 60)
+    memb = members_and_restores(ctx, 3 if ctx.tier == 'quick' else 30)
     pub, st = dc.correspond(ctx, steps, dc.oracle_c02, 'dedup')
     distinct = {core.canon(dc.model_request(s)) for s in pub if s['earlier'] and len(s['new']['records'] or []) >= 2}
     ctx.coverage.update({
@@ -122,7 +198,7 @@ def check(ctx):
                 'non-trivial = a run appending to an existing group with at least two file records; distinct by model request',
         'samples': [dc.model_request(pub[0])] if pub else [],
         'correspondence': st, 'distribution': dc.stats(steps, pub),
-        'disagreements_checked': st['cases'], 'racing_writer_runs': races, 'same_second_histories': same,
+        'disagreements_checked': st['cases'], 'racing_writer_runs': races, 'same_second_histories': same, 'member_and_restore_scenarios': memb,
     })
     ctx.assumptions += ['every content change also changes (device, inode, mtime) — the generator gives each written file a fresh mtime',
                         'SHA-512 collision-free on the generated contents']
